@@ -19,7 +19,7 @@ int g_fail_at = -1, g_fail_code, g_fail_class, g_io_failed;
 int g_view_n, g_view_fail_at = -1, g_sync_fail;
 int g_rank, g_nprocs = 1;
 long long g_agreed_ll[G_COLL_MAX];
-int g_get_count = -1;
+int g_get_count = -1; int g_full_reads;
 unsigned char g_file[G_FILE_MAX]; long long g_file_len; int g_file_mode;
 long long g_last_got = -1;
 long long g_last_io_bytes;
@@ -274,6 +274,6 @@ int MPI_Get_count(const MPI_Status *status, MPI_Datatype datatype, int *count)
     int c = nondet_int();
     long long lim = (datatype == MPI_BYTE) ? g_last_io_bytes : g_last_io_bytes;
     __CPROVER_assume(c >= 0 && (long long)c <= lim);
-    *count = (g_last_got >= 0) ? (int)g_last_got : (g_get_count >= 0) ? g_get_count : c;
+    *count = (g_last_got >= 0) ? (int)g_last_got : g_full_reads ? (int)g_last_io_bytes : (g_get_count >= 0) ? g_get_count : c;
     return MPI_SUCCESS;
 }
